@@ -10,7 +10,8 @@ TEXT = ('A spatial track without a resolvable listener writes Frame::ZERO for ev
         'gain bounds are relations between renderings and are not decided.'
         ' Inside the spatial branch the per-frame listener loop cannot be skipped.'
         ' With an attenuation function the signal is multiplied by the distance amplitude on every path; it is folded to mono exactly when the strength is non-zero.'
-        ' Each channel is scaled by the gain of its own ear.')
+        ' Each channel is scaled by the gain of its own ear.'
+        ' The falloff is (clamp(d, min, max) - min) / (max - min).')
 TECHNIQUE = 'MIR path / operand-flow rules'
 
 TRACK = 'track::sub::Track'
@@ -231,6 +232,14 @@ def run(ctx, R, tier):
                 where=rb.file)
         if not sinks:
             R.ok('B.C15.range', 'relative_distance', detail='no clamp(min,max) / division by (max-min) on raw bounds')
+        # the falloff itself: (clamp(distance, min, max) - min) / (max - min), 0 at the minimum distance and 1 at the maximum
+        rets = [str(p.ret) for p in explore(rb) if p.end == 'return']
+        want = 'Div(Sub(core::f32::<impl f32>::clamp(distance, (*self).min_distance, (*self).max_distance), (*self).min_distance), Sub((*self).max_distance, (*self).min_distance))'
+        rets = [r.replace('(*self)', 'self') for r in rets]
+        want = want.replace('(*self)', 'self')
+        R.check(want in rets, 'B.C15.range', 'formula',
+                'relative_distance does not return (clamp(distance, min, max) - min) / (max - min) (returns %s): unity within the minimum '
+                'distance and zero at the maximum would not hold' % [r[:90] for r in rets], detail={'returns': [r[:120] for r in rets]})
 
     # ---- finite output: no normalisation of a vector that can be zero
     nn = 0
